@@ -94,6 +94,7 @@ typedef struct br_darwin {
     void *ctx;                     /* iface ctx handed to parseFrame */
     br_send_hello_fn send_hello; void *user;
     int call_parse_frame;          /* 0: automata only */
+    int skip_trailing_tick;        /* 1: br_darwin_rx leaves the trailing automata_tick to the caller (br_darwin_idle_tick) */
 } br_darwin;
 int   br_darwin_init(br_darwin *d);   /* 0 ok; -1 if a constructor returned NULL (everything released) */
 void  br_darwin_destroy(br_darwin *d);
